@@ -92,6 +92,9 @@ func (r *ComDoc) ListDir(parent *DirEnt) ([]*DirEnt, error) {
 		item := stack[i]
 		stack = stack[:i]
 		files = append(files, item)
+		if len(files) > len(r.Files) {
+			return nil, errors.New("loop in directory tree")
+		}
 		if item.LeftChild < -1 || int(item.LeftChild) >= len(r.Files) ||
 			item.RightChild < -1 || int(item.RightChild) >= len(r.Files) {
 			return nil, errors.New("directory entry refers to a nonexistent entry")
